@@ -27,6 +27,8 @@ func main() {
 		cmdComments(os.Args[2:])
 	case "enum":
 		cmdEnum(os.Args[2:])
+	case "struct":
+		cmdStruct(os.Args[2:])
 	case "rules":
 		cmdRules(os.Args[2:])
 	default:
